@@ -41,8 +41,9 @@ def main():
             subprocess.run(["git", "-C", REPO, "worktree", "add", "--detach", wt, "HEAD"], check=True, capture_output=True)
         os.makedirs(out, exist_ok=True)
         p = props[pid]
-        open(os.path.join(out, "PROPERTY.txt"), "w").write("%s - %s\n\n%s\n\nQuantifier: %s\n" % (pid, p["title"], p["statement"], p["quantifier"]["text"]))
-        open(os.path.join(out, "ALREADY_TRIED.txt"), "w").write("\n".join(tried.get(pid, ["(nothing yet)"])) + "\n")
+        where = "\n".join("  " + f for f in (p.get("anchors") or {}).get("files", []))
+        open(os.path.join(out, "PROPERTY.txt"), "w").write("%s - %s\n\n%s\n\nQuantifier: %s\n\nWHERE IT LIVES IN THE CODE (files):\n%s\n" % (pid, p["title"], p["statement"], p["quantifier"]["text"], where))
+        open(os.path.join(out, "ALREADY_TRIED.txt" if kind == "break" else "ALREADY_DONE.txt"), "w").write("\n".join(tried.get(pid, ["(nothing yet)"])) + "\n")
     base = os.path.join(wtroot, "baseline_failures.txt")
     if not os.path.exists(base):
         env = dict(os.environ, OMP_NUM_THREADS="1", OPENBLAS_NUM_THREADS="1", MKL_NUM_THREADS="1", NUMBA_NUM_THREADS="1", PYTHONPATH=REPO)
